@@ -116,21 +116,25 @@ def mc(spec, cfg, *, required_actions=(), **kw):
     return r
 
 
-def _iter_dump(fh):
-    """Yield parsed states from a TLC -dump stream."""
+def _iter_dump(fh, prefilter=None):
+    """Yield parsed states from a TLC -dump stream (prefilter: cheap test on the raw text)."""
     buf = []
     for line in fh:
         if line.startswith("State "):
             if buf:
-                yield tlaval.parse_state("".join(buf))
+                t = "".join(buf)
+                if prefilter is None or prefilter(t):
+                    yield tlaval.parse_state(t)
             buf = []
         elif line.strip():
             buf.append(line)
     if buf:
-        yield tlaval.parse_state("".join(buf))
+        t = "".join(buf)
+        if prefilter is None or prefilter(t):
+            yield tlaval.parse_state(t)
 
 
-def dump_states(spec, cfg, *, workers=16, timeout=1800, extra=(), info=None):
+def dump_states(spec, cfg, *, workers=16, timeout=1800, extra=(), info=None, prefilter=None):
     """Generator over all distinct reachable states of (spec,cfg), streamed
     through a FIFO so nothing big lands on disk.  After exhaustion the
     generator's .result attribute is not available; use dump_collect for stats."""
@@ -158,7 +162,7 @@ def dump_states(spec, cfg, *, workers=16, timeout=1800, extra=(), info=None):
     t0 = time.time()
     try:
         with open(fifo) as fh:
-            for st in _iter_dump(fh):
+            for st in _iter_dump(fh, prefilter):
                 yield st
         p.wait()
         outf.close()
@@ -187,7 +191,7 @@ def simulate(spec, cfg, *, num, depth, seed=0, timeout=900, workers=1):
     d = tempfile.mkdtemp(prefix="sim-", dir=scratch())
     meta = os.path.join(d, "meta")
     cmd = _java() + ["-workers", str(workers), "-metadir", meta, "-noGenerateSpecTE", "-deadlock",
-                     "-config", cfg, "-simulate", "file=%s/tr,num=%d" % (d, num), "-depth", str(depth),
+                     "-config", cfg, "-simulate", "file=%s/tr,num=%d" % (d, max(1, num // workers)), "-depth", str(depth),
                      "-seed", str(seed), spec]
     try:
         p = subprocess.run(cmd, cwd=SPECS, capture_output=True, text=True, timeout=timeout)
